@@ -163,6 +163,13 @@ Definition dpanic_toks (kind : N) (n : nat) : option (list N) :=
     the last one: the original value (token 0) is destroyed exactly once, its block returned once, the result is a sole
     owner of the clone. *)
 Definition run_dpanic (kind n k : N) : list N :=
+  if 28 <=? kind then
+    (* kinds 28..33: a ZERO-SIZED header / payload with drop glue through from_header_and_uninit_slice (dropped
+       uninitialised; assumed initialised and shared), from_header_and_iter, from_header_and_vec, From<Box<T>>, Arc::new:
+       it is not destroyed during construction, exactly once when the last handle goes, the elements once each when
+       initialised, and nothing that was never allocated reaches the allocator *)
+    (if (kind <? 34) && (n =? 0) && (k =? 0)
+     then [0; SEP; SEP; 0; 1; (if (29 <=? kind) && (kind <=? 31) then 2 else 0); 0] else [98]) else
   if 24 <=? kind then
     (* kinds 24..27: make_mut / OffsetArc::make_mut / make_unique / unwrap_or_clone of a SHARED value whose type has no
        drop glue and is not Copy: exactly one Clone call, the copy is the Clone's result, the other owner's value is
@@ -177,7 +184,7 @@ Definition run_dpanic (kind n k : N) : list N :=
 
 Definition run_ctor1 (dbg : bool) (op : list N) : list N :=
   match op with
-  | [c; n; k] => if (20 <=? c) && (c <? 60) then run_dpanic (c - 20) n k else [99]
+  | [c; n; k] => if (20 <=? c) && (c <? 80) then run_dpanic (c - 20) n k else [99]
   | ctor :: n :: panic_at :: extra :: nl :: rest =>
     if (64 <? n) || (64 <? extra) then [99] else
     let k := N.to_nat nl in
